@@ -218,6 +218,20 @@ pub fn exec(op: &Op) -> Vec<u8> {
                     field_op::<$t>(a, b, *n, *x, *i, &mut out)
                 };
             }
+            // table lookups of the GF255 types, with any 32-bit index (out-of-range indices are documented to yield zeros)
+            macro_rules! lk {
+                ($t:ty) => {{
+                    use crate::fieldapi::PF;
+                    use crate::props::c20::LK;
+                    let (ea, eb) = (<$t as PF>::decode_reduce(a, 0), <$t as PF>::decode_reduce(b, 0));
+                    let tab: [$t; 64] = core::array::from_fn(|k| <$t as PF>::add(<$t as PF>::mulk(ea, 2, 0), <$t as PF>::mul_small(eb, k as u32 + 1, 0), 0));
+                    let t48: [$t; 48] = core::array::from_fn(|k| tab[k]);
+                    let j = match *n % 4 { 0 => *x, 1 => *x % 16, 2 => *x % 64, _ => (*x & 0xFFFF_FF0F) };
+                    for v in <$t as LK>::lookup3(&t48, j) { out.extend(<$t as PF>::encode(v)); }
+                    for v in <$t as LK>::lookup4(&tab, j) { out.extend(<$t as PF>::encode(v)); }
+                }};
+            }
+            match *ty % FIELD_NAMES.len() as u8 { 0 => lk!(GF25519), 1 => lk!(GF255e), 2 => lk!(GF255s), 3 => lk!(GF255_31), 4 => lk!(GF255_921), 5 => lk!(GF255_32715), _ => {} }
             match *ty % FIELD_NAMES.len() as u8 {
                 0 => f!(GF25519), 1 => f!(GF255e), 2 => f!(GF255s), 3 => f!(GF255_31), 4 => f!(GF255_921), 5 => f!(GF255_32715), 6 => f!(GFp256), 7 => f!(GFsecp256k1), 8 => f!(GF448),
                 9 => f!(ScEd25519), 10 => f!(ScJq255e), 11 => f!(ScJq255s), 12 => f!(ScP256), 13 => f!(ScSecp256k1), 14 => f!(ScGls254), 15 => f!(ScEd448), 16 => f!(MI194), 17 => f!(MI224),
